@@ -2,6 +2,7 @@
 import struct
 import containers
 import id3file_tie
+import dsf_tie
 import apefile_tie
 import formats as F
 import walkers
@@ -405,6 +406,7 @@ def run(ctx):
     unknown_kept(ctx)
     order_independence(ctx)
     id3file_tie.run(ctx)
+    dsf_tie.run(ctx)
     apefile_tie.run(ctx)
 
 
